@@ -182,6 +182,39 @@ fn local_update(w: &mut World, kind: Kind, li: usize, t: &str, v: f64) {
     p.sum += v;
 }
 
+/// One batch larger than any 32-bit counter: 2^32 + 5 observations accumulate in one LocalHistogram before a single flush delivers
+/// them (thorough tier only: the loop takes 10-20 s). Sums of 1.5 stay exact in f64 far beyond this size.
+fn long_accumulation() -> Result<u64, (String, String)> {
+    let r = std::panic::catch_unwind(|| {
+        let h = Histogram::with_opts(HistogramOpts::new("big", "h").buckets(vec![1.0, 2.0])).unwrap();
+        let l = h.local();
+        let n: u64 = (1u64 << 32) + 5;
+        for _ in 0..n {
+            l.observe(1.5);
+        }
+        l.flush();
+        let fams = h.collect();
+        let hist = fams[0].get_metric()[0].get_histogram().clone();
+        let cum: Vec<u64> = hist.get_bucket().iter().map(|b| b.cumulative_count()).collect();
+        (n, hist.get_sample_count(), hist.get_sample_sum(), cum)
+    });
+    match r {
+        Err(e) => {
+            let m = e.downcast_ref::<&str>().map(|s| s.to_string()).or_else(|| e.downcast_ref::<String>().cloned()).unwrap_or_default();
+            Err(("panic:long-local-batch".into(), format!("accumulating 2^32+5 observations in one LocalHistogram and flushing panicked: {}", m)))
+        }
+        Ok((n, count, sum, cum)) => {
+            if count != n || sum != 1.5 * n as f64 || cum != vec![0, n] {
+                return Err((
+                    "long-local-batch-not-delivered".into(),
+                    format!("{} observations of 1.5 accumulated in one LocalHistogram (bounds 1, 2) and flushed once: shared histogram shows count={} sum={} cumulative buckets={:?}", n, count, sum, cum),
+                ));
+            }
+            Ok(n)
+        }
+    }
+}
+
 impl Property for C12 {
     fn id(&self) -> &'static str {
         "C12"
@@ -195,7 +228,7 @@ impl Property for C12 {
          mirrored in the same order), compared after every operation with the shared values (get / collected count, sum, buckets, \
          also of detached children) and with every local's pending count/sum. Non-trivial: >=2 local handles with interleaved \
          updates and at least one of {clone with pending data, drop with pending data, flush after shared reset, local \
-         remove_label_values with pending data}. Distinct = decoded choices."
+         remove_label_values with pending data}. Thorough tier: one further stage accumulates 2^32+5 observations in a single LocalHistogram before one flush. Distinct = decoded choices."
     }
     fn assumptions(&self) -> Vec<&'static str> {
         vec![
@@ -210,7 +243,25 @@ impl Property for C12 {
         }
     }
 
+    fn post(&self, tier: Tier, _seed: u64, stats: &mut crate::engine::Stats) -> Result<(), (String, String, Vec<u8>)> {
+        if tier == Tier::Thorough {
+            match long_accumulation() {
+                Ok(n) => stats.extra.push(("observations_in_one_local_batch".into(), serde_json::json!(n))),
+                Err((sig, d)) => return Err((sig, d, vec![0xFC; 8])),
+            }
+        }
+        Ok(())
+    }
+
     fn run(&self, src: &mut Src, rep: &mut Report) -> Verdict {
+        // the 8-byte case 0xFC x 8 stands for the long-accumulation stage (see `post`)
+        if src.data() == [0xFC; 8] {
+            rep.class("long-accumulation-stage");
+            return match long_accumulation() {
+                Ok(_) => Verdict::Pass,
+                Err((sig, d)) => fail(sig, d),
+            };
+        }
         let kind = *src.pick(KINDS);
         // 10% of the histogram cases use 40 bounds 0.5, 1.0, ... 20.0 (the generated values 0.5 / 1 / 2 / 4 / 5 sit exactly on bounds)
         let wide = kind.is_hist() && src.chance(26);
